@@ -136,6 +136,16 @@ ProfRowsN == [Base EXCEPT !.methods = {"pt"}, !.binops = {"+"}, !.cmpops = {}, !
 ProfLetRows == [Base EXCEPT !.methods = {"pt"}, !.consts = {}, !.aggs = {"Count"}, !.where = TRUE, !.selectmany = TRUE,
                   !.rows = {"tuple"}, !.letseq = {N}, !.must = {"Let", "Tuple", "Where"}]
 
+\* C01 / C02 / C04 (simulation): everything at once - random deep derivations over the union of the features above,
+\* for the interactions no focused profile was written for
+ProfAll == [Base EXCEPT !.classes = {"A", "T"}, !.methods = {"pt", "n", "vals", "trks", "link"},
+              !.consts = {<<"int", 1, 1>>, <<"double", 1, 2>>}, !.iconsts = {0, 1}, !.binops = {"+", "/"}, !.unops = {"-"},
+              !.cmpops = {">", "=="}, !.boolops = {"And", "Or"}, !.not = TRUE, !.ifexp = TRUE, !.aggs = {"Count", "Sum", "Aggregate"},
+              !.first = TRUE, !.index = TRUE, !.math = {<<"sqrt", 1>>, <<"fabs", 1>>},
+              !.colls = {<<"A", "bk1">>, <<"A", "bk2">>}, !.selectmany = TRUE, !.range = TRUE,
+              !.rows = {"bool", "seq", "seqseq", "tuple", "dict"}, !.topmid = {S(O("A")), N}, !.topwhere = TRUE, !.evwhere = TRUE,
+              !.letcall = {N, O("A")}, !.letseq = {N}, !.userfns = {"vp_inc_res", "vp_lin_a_b"}, !.mindone = 12]
+
 \* C04: partial operations (First, index, link dereference) under guards
 ProfFault == [Base EXCEPT !.methods = {"pt", "vals", "link"}, !.consts = {<<"int", 0, 1>>},
                 !.iconsts = {0, 1, 2}, !.cmpops = {">"}, !.boolops = {"And", "Or"}, !.ifexp = TRUE,
